@@ -168,7 +168,7 @@ template <class V> void mm_dense_rt(Case &c, Rng &r, size_t n, size_t m) {
 }
 
 static void sub_mm_roundtrip() {
-    long N = vf::tier(240, 4000);
+    long N = vf::tier(960, 16000);
     for (long idx = 0; idx < N; ++idx) {
         if (!sel("mm_roundtrip", idx)) continue;
         Rng r(vf::case_seed("mm_roundtrip", idx));
@@ -195,7 +195,7 @@ static std::string fmt_foreign(double v, Rng &r) {       // equivalent spellings
     return b;
 }
 static void sub_mm_symmetric() {
-    long N = vf::tier(120, 2000);
+    long N = vf::tier(480, 8000);
     for (long idx = 0; idx < N; ++idx) {
         if (!sel("mm_symmetric", idx)) continue;
         Rng r(vf::case_seed("mm_symmetric", idx));
@@ -269,7 +269,7 @@ template <class S, class P, class C, class V> void bin_rt(Case &c, Rng &r, size_
     c.nontrivial();
 }
 static void sub_binary_roundtrip() {
-    long N = vf::tier(120, 2000);
+    long N = vf::tier(480, 8000);
     for (long idx = 0; idx < N; ++idx) {
         if (!sel("binary_roundtrip", idx)) continue;
         Rng r(vf::case_seed("binary_roundtrip", idx));
@@ -465,8 +465,9 @@ static void sub_bin_faults() {
             c.nontrivial();
         }
         // single-bit flips: header and ptr region (structure must stay valid or the read must throw), col region (must not crash)
+        const bool flips = vf::opt_int("bin-flips", 1) != 0;   // memcheck turns a runaway read into minutes of error reports: the vg job leaves the flips to ASan
         for (size_t p0 = 0; p0 < b.col_end; p0 += FB, ++idx) {
-            if (!sel("bin_faults", idx)) continue;
+            if (!flips || !sel("bin_faults", idx)) continue;
             size_t p1 = std::min(b.col_end, p0 + FB);
             Case c("bin_faults", idx, J().s("file", b.name).s("fault", "bit-flip").n("from", p0).n("to", p1).s("region", p0 < b.hdr ? "header" : p0 < b.ptr_end ? "ptr" : "col"));
             auto outs = isolated((p1 - p0) * 8 * 2, [&](size_t k) { size_t pos = p0 + k / 16; int bit = (k / 2) % 8; std::string x = b.bytes; x[pos] = (char)((unsigned char)x[pos] ^ (1u << bit)); put_file(fn, x); return read_bin_any(b, fn, k % 2); });
